@@ -149,6 +149,22 @@ func c09Scenarios(c *Ctx) []crashScenario {
 		}, Run: func(dir string, env []string) (string, int) {
 			return runIn(dir, env, c.Lfs, "fetch", "--all")
 		}},
+		{Name: "refetch", Setup: func(dir string, srv *fpServer, r *Rng) error {
+			// the objects are already in local storage (an earlier, uninterrupted fetch by this binary) and are
+			// downloaded AGAIN: whatever the first download left behind meets the second one
+			gitIn(dir, nil, "config", "lfs.url", srv.srv.URL)
+			gitIn(dir, nil, "config", "lfs.concurrenttransfers", "1")
+			if _, err := commitPointers(dir, srv, r, 2, false); err != nil {
+				return err
+			}
+			pathEnv := "PATH=" + filepath.Dir(c.Lfs) + ":" + os.Getenv("PATH")
+			if out, code := runIn(dir, []string{pathEnv}, c.Lfs, "fetch", "--all"); code != 0 {
+				return fmt.Errorf("first fetch: %s", out)
+			}
+			return nil
+		}, Run: func(dir string, env []string) (string, int) {
+			return runIn(dir, env, c.Lfs, "fetch", "--all", "--refetch")
+		}},
 		{Name: "smudge-download", Setup: func(dir string, srv *fpServer, r *Rng) error {
 			gitIn(dir, nil, "config", "lfs.url", srv.srv.URL)
 			_, err := commitPointers(dir, srv, r, 1, false)
